@@ -464,7 +464,9 @@ QXmppTask<void> QXmppAtmManager::makePostponedTrustDecisions(const QString &encr
         const auto keysBeingAuthenticated = keysForPostponedTrustDecisions.value(true);
         const auto keysBeingDistrusted = keysForPostponedTrustDecisions.value(false);
 
-        auto future = trustStorage()->removeKeysForPostponedTrustDecisions(encryption, keysBeingAuthenticated.values(), keysBeingDistrusted.values());
+        // Remove only the keys of the key owners whose trust decisions are made now.
+        // Keys with the same IDs being postponed for other key owners must be kept.
+        auto future = trustStorage()->removeKeysForPostponedTrustDecisions(encryption, keysBeingAuthenticated, keysBeingDistrusted);
         future.then(this, [=, this]() mutable {
             auto future = makeTrustDecisions(encryption, keysBeingAuthenticated, keysBeingDistrusted);
             future.then(this, [=]() mutable {
